@@ -12,7 +12,8 @@
        [minsma, maxsma].  Numbers are exact rationals.  Partial correctness: the real
        loops need not terminate for adversarial streams, hence the fuel.
    (C) the harmonic selected by EllipseFitter.fit (fitter.py:181-187) is never one of a fixed
-       parameter, and fixed parameters survive the whole iteration of the fitter model.
+       parameter, and fixed parameters survive the whole iteration of the fitter model
+       (repaired by fixes/C20-2 and C20-4).
    NOT proved (numerics of an iterative least-squares fitter; tested only, see harness):
    recovery of centre/eps/PA/intensity within the reported errors, build_ellipse_model
    reproducing the image. *)
@@ -176,20 +177,26 @@ Theorem corrector_keeps_fixed_params :
 Proof. exact correct_keeps. Qed.
 Print Assumptions corrector_keeps_fixed_params.
 
-(* the whole iteration: the geometry of the returned isophote keeps a fixed centre exactly,
-   a fixed eps exactly (for a start eps > 0), and a fixed PA exactly provided no corrected
-   geometry had eps < 0 (then _check_conditions swaps the axes: PA +- pi/2; automatically
-   excluded when eps is fixed too).  [snd r] is the trace of corrected geometries. *)
-Theorem fixed_params_kept_partial :
+(* the whole iteration: the geometry of the returned isophote keeps every fixed parameter
+   EXACTLY: a fixed centre, a fixed position angle (fixes/C20-4: the eps-sign normalisation of
+   _check_conditions no longer rotates a fixed angle) and a fixed eps (for a start eps > 0;
+   eps = 0 is replaced by MIN_EPS, eps < 0 is outside the property's range) *)
+Theorem fixed_params_kept :
   forall max_eps min_eps pi2 fc fpa feps inw minit os g,
   fc && fpa && feps = false ->
   Forall (fun o => length (o_coeffs Qnum o) = 4%nat) os ->
   (feps = true -> 0 < g_eps Qnum g) ->
-  let r := fit Qnum max_eps min_eps pi2 fc fpa feps inw minit os g in
-  (fpa = true -> feps = false -> forall gc, In gc (snd r) -> 0 <= g_eps Qnum gc) ->
-  keeps fc fpa feps g (snd (fst r)).
+  keeps fc fpa feps g (snd (fst (fit Qnum max_eps min_eps pi2 fc fpa feps inw minit os g))).
 Proof. exact fixed_params_kept_proof. Qed.
-Print Assumptions fixed_params_kept_partial.
+Print Assumptions fixed_params_kept.
+
+(* the snapshot's normalisation (position angle rotated whatever the fix flags; it is the
+   not-fixed branch of the repaired one) breaks a fixed position angle as soon as a corrected
+   eps is negative *)
+Theorem fixed_pa_refuted_unrepaired :
+  exists g : geom Qnum, g_pa Qnum (normalise Qnum (95 # 100) (5 # 100) (157 # 100) false g) <> g_pa Qnum g.
+Proof. exact fixed_pa_refuted_unrepaired_proof. Qed.
+Print Assumptions fixed_pa_refuted_unrepaired.
 
 (* the premise [stream_ok] of the schedule theorem holds of the fitter model *)
 Theorem fit_invalid_only_code3 :
